@@ -374,6 +374,12 @@ def main(tier, only_models=None):
             run.extra["spec_vs_jdk_reader"] = jdk_crosscheck(run, wd, random.Random(run.seed + 1000), 80 if not run.thorough else 800)
         counts, keylens = ((), ()) if only_models is not None else ((0, 1, 3), (0, 64)) if not run.thorough else ((0, 1, 2, 3), (0, 1, 16, 64))
         images, lines, parts = validate(run, wd, models, 600 if not run.thorough else 3000, counts, keylens)
+        # ---- the specification's writer against MIT Kerberos' credential-cache reader (validates CCacheFormat, not gokrb5)
+        import mitcross
+        mc = mitcross.mit_ccache_cross(wd, models, images[:len(models)], 600 if not run.thorough else 6000)
+        run.extra["spec_vs_mit_reader"] = {k: v for k, v in mc.items() if k != "first"}
+        if mc.get("disagreements"):
+            raise vlib.Inconclusive("CCacheFormat and MIT's credential-cache reader disagree on %d files: %s" % (mc["disagreements"], mc["first"]))
         # the specification itself against independent data: it must reproduce the cache file MIT kinit wrote
         if images[0]["image"] != sample["image"]:
             raise vlib.Inconclusive("CCacheFormat.Render does not reproduce the MIT sample cache of the repository's test vectors")
